@@ -565,11 +565,23 @@ func (f *File) ReadAt(p []byte, off int64) (n int, err error) {
 		return 0, config.ErrIsDirectory
 	}
 
+	// Positioned reads don't move the cursor, so remember where it is
+	pos, err := f.Seek(0, io.SeekCurrent)
+	if err != nil {
+		return 0, err
+	}
+
 	if _, err := f.Seek(off, io.SeekStart); err != nil {
 		return 0, err
 	}
 
-	return f.Read(p)
+	n, err = f.Read(p)
+
+	if _, serr := f.Seek(pos, io.SeekStart); serr != nil && err == nil {
+		err = serr
+	}
+
+	return n, err
 }
 
 // Read/write operations
